@@ -39,6 +39,11 @@ def check(rep, tier, rng):
         for j in ["\x0c", "\x0b", "\u0085", "\u00a0", "\u2028", "\u2029", "\u3000", "\u1680", "\ufeff", "\u200b", "\x00", "\x1a", "\r", "\r\n", " \t\n"]:
             aff += [j + base, base + j, j + base + j]
     nm = [{"text": specgen.render(items), "kind": "names", "tag": ctag} for ctag, items in specgen.names_catalog()]
+    # arms without a body where the grammar does and does not allow it: `case L:` may fall through (also into `}`), `default:` may not
+    for body in ("case 1: int a; default: }", "default: case 1: int a; }", "default: }", "case 1: }", "case 1: case 2: }", "case 1: int a; default: default: void; }",
+                 "default: void; default: }", "case 1: default: int a; }", "case 1: void; case 2: default: }"):
+        for sw in ("int d", "unsigned int d", "bool b"):
+            nm.append({"text": "union u switch (%s) { %s;" % (sw, body), "kind": "bodyless-arms", "tag": "bodyless-arms"})
     cases = (nm + sup + oos + mut + [{"text": t, "kind": "golden"} for t in t3.golden_inputs()] + [{"text": t, "kind": "typedef-cycle"} for t in cyc]
              + [{"text": t, "kind": "unicode-space-affix"} for t in aff])
     texts = [c["text"] for c in cases]
